@@ -49,9 +49,15 @@ def alphabet_for(e, with_skips=True):
     alpha = used[:5]
     skips = []
     if with_skips:
+        # `Error` and declared skip tokens go through the same arms of the runtime; one of them keeps the
+        # alphabet small enough for one more token of input length (grammars without a skip declaration,
+        # and two-skip grammars, still exercise `Error`)
         if e.get("semaskip"):
             skips.append(e["semaskip"][0])
-        skips.append("Error")
+            if len(alpha) < 4:
+                skips.append("Error")
+        else:
+            skips.append("Error")
     return alpha, skips
 
 
@@ -158,13 +164,24 @@ def oc_family(tier):
     ctxs = [("sib", "s: r t2;\nr: %s;\nt2: A D;\n"), ("mid", "s: P r Q;\nr: %s;\n"),
             ("pre", "s: r Q;\nr: P (%s);\n"), ("loop", "s: (r)* D;\nr: %s;\n"), ("start", "s: %s;\n"),
             ("elided", "s: r+ D;\nr^: %s;\n"), ("create", "s: P <1 r 1>y Q;\nr: %s;\n"),
-            ("prepost", "s: r Q;\nr: P (%s) Q;\n")]
+            ("prepost", "s: r Q;\nr: P (%s) Q;\n"), ("presib", "s: r t2;\nr: P (%s);\nt2: A D;\n")]
+    triples = [(i, j, c) for i in range(len(firsts)) for j in range(len(lasts)) for c in range(len(ctxs))]
+    if tier == "quick":
+        # greedy pairwise covering array over the three factors
+        need = {("fl", i, j) for i in range(len(firsts)) for j in range(len(lasts))} | \
+               {("fc", i, c) for i in range(len(firsts)) for c in range(len(ctxs))} | \
+               {("lc", j, c) for j in range(len(lasts)) for c in range(len(ctxs))}
+        chosen = []
+        while need:
+            best = max(triples, key=lambda t: (("fl", t[0], t[1]) in need) + (("fc", t[0], t[2]) in need) + (("lc", t[1], t[2]) in need))
+            chosen.append(best)
+            need -= {("fl", best[0], best[1]), ("fc", best[0], best[2]), ("lc", best[1], best[2])}
+        triples = chosen
     out = []
-    for i, f in enumerate(firsts):
-        for j, l in enumerate(lasts):
-            for c, (cn, ct) in enumerate(ctxs):
-                if tier == "quick" and c != (i * 3 + j) % len(ctxs):
-                    continue
+    for (i, j, c) in triples:
+        f, l, (cn, ct) = firsts[i], lasts[j], ctxs[c]
+        if True:
+            if True:
                 body = "%s / %s" % (f, l)
                 text = "token A B C D P Q W;\nskip W;\nstart s;\n" + (ct % body)
                 if " t " in " " + body + " ":
